@@ -139,7 +139,12 @@ fn st_op<T: Tokish>(ex: &mut Exec, code: i64, p: &[i64]) -> Out {
         }
         40 => {
             let mut st = ex.world.write_storage::<T>();
-            let l: Vec<(u64, i64)> = st.drain().join().map(ret).collect();
+            // optionally the iterator is dropped after p[1] items
+            let l: Vec<(u64, i64)> = if p.len() >= 2 {
+                st.drain().join().take(p[1].max(0) as usize).map(ret).collect()
+            } else {
+                st.drain().join().map(ret).collect()
+            };
             let mut o = vec![15, l.len() as i64];
             for (u, v) in l {
                 o.push(u as i64);
@@ -512,7 +517,7 @@ impl Exec {
                 }
                 by_tracked_sid!(sid, tracked_op, self, sid, code, p)
             }
-            (30, 4) | (31, 2) | (32, 5) | (33, 2) | (34, 2) | (35, 1) | (36, 1) | (37, 1) | (39, 1) | (40, 1)
+            (30, 4) | (31, 2) | (32, 5) | (33, 2) | (34, 2) | (35, 1) | (36, 1) | (37, 1) | (39, 1) | (40, 1) | (40, 2)
             | (41, 5) | (42, 2) => {
                 let sid = p[0];
                 by_sid!(sid, st_op, self, code, p)
